@@ -132,6 +132,12 @@ def classify_scope(ix, cls, fn, e, depth=0):
                 return [k for k in kinds if k[0] == 'env'][0]
             return ('env', 'parameter %s' % e.id)
         return ('env', _u(e))
+    if isinstance(e, ast.Attribute) and isinstance(e.value, ast.Name) and e.value.id == 'self' and depth < 4:
+        # visitor state set in this very method (`self.env = node.local_scope` ... `self.env.directives`)
+        stores = [n.value for n in walk_no_nested(fn) if isinstance(n, ast.Assign) and any(is_self_attr(t) and t.attr == e.attr for t in n.targets)]
+        if len(stores) == 1 and stores[0].lineno < getattr(e, 'lineno', 10 ** 9):
+            return classify_scope(ix, cls, fn, stores[0], depth + 1)
+        return ('env', _u(e))
     if isinstance(e, ast.Attribute) and e.attr in OWN_ATTRS and isinstance(e.value, ast.Name) and e.value.id != 'self':
         base = e.value.id
         if base in params or (base in defs and len(defs[base]) == 1):
@@ -482,6 +488,11 @@ class PathExec:
                     return rets[0]
                 if rets:
                     return ('either', rets)
+            # a private copy of a mapping is, for this analysis, the mapping: dict(m), m.copy(), copy.copy(m), copy_inherited_directives(m) without overrides
+            if nm == 'copy' and isinstance(f, ast.Attribute) and not e.args and not e.keywords:
+                return self._expr(f.value, env)
+            if nm in ('dict', 'copy', 'deepcopy', 'copy_inherited_directives') and len(e.args) == 1 and not e.keywords:
+                return self._expr(e.args[0], env)
             if isinstance(f, ast.Attribute):
                 return ('mcall', self._expr(f.value, env), nm)
             return ('opaque', _u(e))
